@@ -9,19 +9,19 @@ package command
 // watchdog: the scan is cancelled only after the engine signalled completion AND a timer of exactly the
 // configured exit delay, armed after that signal, has fired.
 //@ func startScanEngine$2
-//@   props C16 C08 C12 C13 C14 C01 C03 C07 C15
+//@   props C16 C08 C12 C13 C14 C01 C03 C07 C15 C09 C10 C20
 //@   observe time.After, cancel
 //@   entry row delay: [recv done as (_, _) ; call time.After(conf.exitDelay) as (t) ; recv t as (_, _) ; call cancel()] -> exit
 
 // result logging goroutine: LogResults on the derived context and the engine's result channel, then Done
 //@ func startScanEngine$1
-//@   props C16 C08 C12 C13 C14 C01 C03 C07 C15
+//@   props C16 C08 C12 C13 C14 C01 C03 C07 C15 C09 C10 C20
 //@   observe LogResults, Results, (*sync.WaitGroup).Done
 //@   entry row log: [call Results(engine) as (rc) ; call LogResults(logger, ctx, rc) ; call Done(_)] -> exit
 
 // error drain: every error of the stream is logged once; returns only when the stream is closed
 //@ func startScanEngine$3
-//@   props C08 C12 C13 C14 C01 C03 C07 C15 C16
+//@   props C08 C12 C13 C14 C01 C03 C07 C15 C16 C09 C10 C20
 //@   observe Error, (*sync.WaitGroup).Done
 //@   loop 0 row closed: [recv errc as (e, false) ; call Done(_)] -> exit
 //@   loop 0 row report: [recv errc as (e, true) ; call Error(logger, e)] -> continue
@@ -30,7 +30,7 @@ package command
 // done channel and the derived cancel; returns only after Wait (logger returned and error stream closed);
 // the deferred cancel runs after Wait.
 //@ func startScanEngine
-//@   props C16 C08 C12 C13 C14 C01 C03 C07 C15
+//@   props C16 C08 C12 C13 C14 C01 C03 C07 C15 C09 C10 C20
 //@   observe context.WithCancel, Start, (*sync.WaitGroup).Add, (*sync.WaitGroup).Wait, cancel
 //@   entry row scan: [call context.WithCancel(ctx) as (c2, cf) ; call Add(_, 1) ; go startScanEngine$1{logger: bind_lg, ctx: bind_c1, engine: bind_en} ;
 //@                    call Start(engine, c2, bind_rng) as (done, errc) ; go startScanEngine$2{cancel: bind_cf2, done: bind_dn, conf: bind_cfg} ;
@@ -44,7 +44,7 @@ package command
 // conf.Ports[200k : min(200k+200, len)] (same order, 1..200 ranges) and that is otherwise identical, until all
 // ranges are consumed or an engine fails.
 //@ func startPortScanEngine
-//@   props C01 C03 C15 C16 C07 C08 C13 C14
+//@   props C01 C03 C15 C16 C07 C08 C13 C14 C09 C10 C12 C20
 //@   observe startPacketScanEngine
 //@   entry row pairs:  [call startPacketScanEngine(ctx, conf) as (e)] when len(pre(conf.scanRange.Ports)) == 0 && ret == e -> exit
 //@   entry row ranges: [] when len(conf.scanRange.Ports) > 0 -> loop 0
@@ -67,7 +67,7 @@ package command
 // (rateCount, Per(rateWindow)) and nothing else, otherwise straight to the packet source; the engine gets the
 // configured scan method; startScanEngine runs on this configuration's engine config; the source is closed.
 //@ func startPacketScanEngine
-//@   props C03 C15 C01 C16 C07 C08 C13 C14
+//@   props C03 C15 C01 C16 C07 C08 C13 C14 C09 C10 C12 C20
 //@   observe bpfFilter, ratelimit.Per, ratelimit.New
 //@   opaque afpacket.NewPacketSource, (*Source).Close, (*Source).SetBPFFilter, packet.NewRateLimitReadWriter, scan.SetupPacketEngine, startScanEngine
 //@   entry row nosource:  [call afpacket.NewPacketSource(conf.scanRange.Interface.Name, conf.vpnMode) as (ps, e)] when e != nil && ret == e -> exit
@@ -86,7 +86,7 @@ package command
 // application scans: with rateCount > 0 the scanner is wrapped by a limiter built from exactly
 // (rateCount, Per(rateWindow)); the engine gets that scanner, the target generator and the configured worker count
 //@ func (*genericScanCmdOpts).newScanEngine
-//@   props C15 C08 C01 C02 C09 C10 C13
+//@   props C15 C08 C01 C02 C09 C10 C13 C12
 //@   observe ratelimit.Per, ratelimit.New
 //@   opaque scan.NewRateLimitScanner, scan.NewResultChan, newIPPortGenerator, scan.WithScanWorkerCount, scan.NewScanEngine
 //@   entry row unlimited: [call scan.NewResultChan(ctx, _) as (rc) ; call newIPPortGenerator(o) as (gen) ; call scan.WithScanWorkerCount(o.workers) as (wo) ; call scan.NewScanEngine(gen, scanner, rc, bind_os) as (eng)]
@@ -100,7 +100,7 @@ package command
 // otherwise the network ParseIPNet yields for that text is inserted exactly once (no other filtering); the first
 // error aborts with that error; the container returned is the one that received the inserts.
 //@ func parseExcludeFile
-//@   props C02 C18 C01 C03 C13 C17
+//@   props C02 C18 C01 C03 C13 C17 C08
 //@   observe openFile, (*bufio.Scanner).Scan, (*bufio.Scanner).Text, strings.Index, strings.Trim, ParseIPNet, cidranger.NewBasicRangerEntry, Insert, Close, cidranger.NewPCTrieRanger
 //@   entry row noopen: [call openFile() as (in, e)] when e != nil && ret1 == e -> exit
 //@   entry row open:   [call openFile() as (in, e) ; call cidranger.NewPCTrieRanger() as (rg)] when e == nil -> loop 0
@@ -123,7 +123,7 @@ package command
 //
 // port range "S" or "S-E": at most two parts; each bound is ParseUint(part, 10, 16) of its OWN part
 //@ func parsePortRange
-//@   props C18 C01 C02 C03 C13 C17
+//@   props C18 C01 C02 C03 C13 C17 C08
 //@   observe strings.Split, strconv.ParseUint
 //@   entry row toomany: [call strings.Split(portsRange, "-") as (ps)] when len(ps) > 2 && ret0 == nil && ret1 == scan.ErrPortRange -> exit
 //@   entry row badstart: [call strings.Split(portsRange, "-") as (ps) ; call strconv.ParseUint(bind_a, 10, 16) as (v, e)] when len(ps) <= 2 && a == ps[0] && e != nil && ret1 == e -> exit
@@ -136,7 +136,7 @@ package command
 
 // comma separated list: one parsePortRange per part, results kept in order, first error aborts
 //@ func parsePortRanges
-//@   props C18 C01 C02 C03 C13 C17
+//@   props C18 C01 C02 C03 C13 C17 C08
 //@   observe strings.Split, parsePortRange
 //@   entry row split: [call strings.Split(portsRanges, ",") as (parts)] -> loop 0
 //@   loop 0 invariant noerr: err == nil
@@ -241,7 +241,7 @@ package command
 // arp: exactly one argument, parsed by ParseIPNet (C02); range from getScanRange of THAT subnet (C17); no source MAC =>
 // errSrcMAC, nothing is started; filter = arp.BPFFilter; rate and exit delay from the flags; logger and range as built
 //@ func newARPCmd$1
-//@   props C03 C15 C16 C17 C02 C01 C19 C05 C11 C13 C14
+//@   props C03 C15 C16 C17 C02 C01 C19 C05 C11 C13 C14 C07 C12
 //@   observe ip.ParseIPNet, getScanRange, startPacketScanEngine
 //@   opaque (*packetScanCmdOpts).parseRawOptions, (*arpCmdOpts).getLogger, (*arpCmdOpts).newARPScanMethod
 //@   entry row usage:   [] when len(args) != 1 && ret != nil -> exit
@@ -263,7 +263,7 @@ package command
 // newICMPCmd$1: options parsed first; scan name "icmp"; method from newICMPScanMethod; filter = icmp.BPFFilter (replies to both scans are ICMP);
 // rate, VPN mode, logger, range and exit delay exactly as parsed
 //@ func newICMPCmd$1
-//@   props C03 C15 C16 C17 C01 C02 C05 C11 C13 C14
+//@   props C03 C15 C16 C17 C01 C02 C05 C11 C13 C14 C07 C12
 //@   observe startPacketScanEngine
 //@   opaque (*icmpCmdOpts).parseRawOptions, (*ipScanCmdOpts).parseOptions, (*icmpCmdOpts).newICMPScanMethod
 //@   entry row badraw: [call parseRawOptions(_) as (e)] when e != nil && ret == e -> exit
@@ -278,7 +278,7 @@ package command
 // newUDPCmd$1: options parsed first; scan name "udp"; method from newUDPScanMethod; filter = icmp.BPFFilter (replies to both scans are ICMP);
 // rate, VPN mode, logger, range and exit delay exactly as parsed
 //@ func newUDPCmd$1
-//@   props C03 C15 C16 C17 C01 C02 C05 C11 C13 C14
+//@   props C03 C15 C16 C17 C01 C02 C05 C11 C13 C14 C07 C12
 //@   observe startPortScanEngine
 //@   opaque (*udpCmdOpts).parseRawOptions, (*ipPortScanCmdOpts).parseOptions, (*udpCmdOpts).newUDPScanMethod
 //@   entry row badraw: [call parseRawOptions(_) as (e)] when e != nil && ret == e -> exit
@@ -314,7 +314,7 @@ package command
 //@   props C03
 //@   ensures ret <==> (pkt.SYN && pkt.ACK)
 //@ func newTCPFINCmd$1
-//@   props C03 C05 C15 C16 C17 C01 C02 C11 C13 C14
+//@   props C03 C05 C15 C16 C17 C01 C02 C11 C13 C14 C07 C12
 //@   observe newTCPScanMethod, startPortScanEngine
 //@   opaque (*ipPortScanCmdOpts).parseRawOptions, (*ipPortScanCmdOpts).parseOptions
 //@   entry row badraw: [call parseRawOptions(_) as (e)] when e != nil && ret == e -> exit
@@ -333,7 +333,7 @@ package command
 //@                           && cfg.scanRange.DstSubnet == c.opts.scanRange.DstSubnet && cfg.scanRange.Interface == c.opts.scanRange.Interface && cfg.scanRange.SrcIP == c.opts.scanRange.SrcIP
 //@                           && cfg.scanRange.SrcMAC == c.opts.scanRange.SrcMAC && cfg.scanRange.Ports == c.opts.scanRange.Ports) -> exit
 //@ func newTCPNULLCmd$1
-//@   props C03 C05 C15 C16 C17 C01 C02 C11 C13 C14
+//@   props C03 C05 C15 C16 C17 C01 C02 C11 C13 C14 C07 C12
 //@   observe newTCPScanMethod, startPortScanEngine
 //@   opaque (*ipPortScanCmdOpts).parseRawOptions, (*ipPortScanCmdOpts).parseOptions
 //@   entry row badraw: [call parseRawOptions(_) as (e)] when e != nil && ret == e -> exit
@@ -351,7 +351,7 @@ package command
 //@                           && cfg.scanRange.DstSubnet == c.opts.scanRange.DstSubnet && cfg.scanRange.Interface == c.opts.scanRange.Interface && cfg.scanRange.SrcIP == c.opts.scanRange.SrcIP
 //@                           && cfg.scanRange.SrcMAC == c.opts.scanRange.SrcMAC && cfg.scanRange.Ports == c.opts.scanRange.Ports) -> exit
 //@ func newTCPXmasCmd$1
-//@   props C03 C05 C15 C16 C17 C01 C02 C11 C13 C14
+//@   props C03 C05 C15 C16 C17 C01 C02 C11 C13 C14 C07 C12
 //@   observe newTCPScanMethod, startPortScanEngine
 //@   opaque (*ipPortScanCmdOpts).parseRawOptions, (*ipPortScanCmdOpts).parseOptions
 //@   entry row badraw: [call parseRawOptions(_) as (e)] when e != nil && ret == e -> exit
@@ -372,7 +372,7 @@ package command
 //@                           && cfg.scanRange.DstSubnet == c.opts.scanRange.DstSubnet && cfg.scanRange.Interface == c.opts.scanRange.Interface && cfg.scanRange.SrcIP == c.opts.scanRange.SrcIP
 //@                           && cfg.scanRange.SrcMAC == c.opts.scanRange.SrcMAC && cfg.scanRange.Ports == c.opts.scanRange.Ports) -> exit
 //@ func (*tcpSYNCmdOpts).startScan
-//@   props C03 C05 C15 C16 C17 C01 C02 C11 C13 C14
+//@   props C03 C05 C15 C16 C17 C01 C02 C11 C13 C14 C07 C12
 //@   observe newTCPScanMethod, startPortScanEngine
 //@   opaque (*ipPortScanCmdOpts).parseOptions
 //@   entry row badopt: [call parseOptions(_, "tcpsyn", args) as (e2)] when e2 != nil && ret == e2 -> exit
@@ -390,7 +390,7 @@ package command
 //@                           && cfg.scanRange.DstSubnet == o.scanRange.DstSubnet && cfg.scanRange.Interface == o.scanRange.Interface && cfg.scanRange.SrcIP == o.scanRange.SrcIP
 //@                           && cfg.scanRange.SrcMAC == o.scanRange.SrcMAC && cfg.scanRange.Ports == o.scanRange.Ports) -> exit
 //@ func newTCPSYNCmd$1
-//@   props C03 C16 C01 C02 C05 C11 C13 C14 C15 C17
+//@   props C03 C16 C01 C02 C05 C11 C13 C14 C15 C17 C07 C12
 //@   observe startScan
 //@   opaque (*ipPortScanCmdOpts).parseRawOptions
 //@   entry row badraw: [call parseRawOptions(_) as (e)] when e != nil && ret == e -> exit
@@ -401,7 +401,7 @@ package command
 // options followed by the VPN option; the scan method gets the configured name, reply predicate and flag printer and
 // the VPN mode (C03 C05 C11 C17)
 //@ func (*tcpCmdOpts).newTCPScanMethod
-//@   props C03 C05 C11 C17 C01 C02 C13 C14 C15 C16
+//@   props C03 C05 C11 C17 C01 C02 C13 C14 C15 C16 C07 C12
 //@   observe opt
 //@   opaque (*ipPortScanCmdOpts).newIPPortGenerator, arp.NewCacheRequestGenerator, tcp.WithFillerVPNmode, tcp.NewPacketFiller, scan.NewPacketMultiGenerator, scan.NewPacketSource, scan.NewResultChan, tcp.WithPacketFilterFunc, tcp.WithPacketFlagsFunc, tcp.WithScanVPNmode, tcp.NewScanMethod
 //@   entry row init:  [] -> loop 0
@@ -424,19 +424,19 @@ package command
 // engine construction of the application scans: the scanner gets the configured timeouts / protocol, the engine is
 // built by newScanEngine around exactly that scanner
 //@ func (*socksCmdOpts).newSOCKSScanEngine
-//@   props C09 C08 C01 C15 C02 C13 C14 C16
+//@   props C09 C08 C01 C15 C02 C13 C14 C16 C12
 //@   observe newScanEngine
 //@   opaque socks5.NewScanner, socks5.WithDialTimeout, socks5.WithDataTimeout
 //@   entry row build: [call socks5.WithDialTimeout(o.timeout) as (o1) ; call socks5.WithDataTimeout(o.timeout) as (o2) ; call socks5.NewScanner(bind_os) as (sc) ; call newScanEngine(_, ctx, bind_s2) as (en)]
 //@                       when len(os) == 2 && os[0] == o1 && os[1] == o2 && isptr(s2, socks5.Scanner) && asptr(s2, socks5.Scanner) == sc && isptr(ret, scan.GenericEngine) && asptr(ret, scan.GenericEngine) == en -> exit
 //@ func (*dockerCmdOpts).newDockerScanEngine
-//@   props C10 C08 C01 C15 C02 C13 C14 C16
+//@   props C10 C08 C01 C15 C02 C13 C14 C16 C12
 //@   observe newScanEngine
 //@   opaque docker.NewScanner, docker.WithDataTimeout
 //@   entry row build: [call docker.WithDataTimeout(o.timeout) as (o1) ; call docker.NewScanner(o.proto, bind_os) as (sc) ; call newScanEngine(_, ctx, bind_s2) as (en)]
 //@                       when len(os) == 1 && os[0] == o1 && isptr(s2, docker.Scanner) && asptr(s2, docker.Scanner) == sc && isptr(ret, scan.GenericEngine) && asptr(ret, scan.GenericEngine) == en -> exit
 //@ func (*elasticCmdOpts).newElasticScanEngine
-//@   props C10 C08 C01 C15 C02 C13 C14 C16
+//@   props C10 C08 C01 C15 C02 C13 C14 C16 C12
 //@   observe newScanEngine
 //@   opaque elastic.NewScanner, elastic.WithDataTimeout
 //@   entry row build: [call elastic.WithDataTimeout(o.timeout) as (o1) ; call elastic.NewScanner(o.proto, bind_os) as (sc) ; call newScanEngine(_, ctx, bind_s2) as (en)]
@@ -444,11 +444,11 @@ package command
 
 // engine configuration: default exit delay 300 ms, then the options in order; each option sets exactly its field
 //@ func withExitDelay$1
-//@   props C16 C01 C03 C07 C08 C13 C14 C15
+//@   props C16 C01 C03 C07 C08 C13 C14 C15 C09 C10 C12 C20
 //@   modifies c.exitDelay
 //@   ensures c.exitDelay == exitDelay
 //@ func withLogger$1
-//@   props C16 C14 C01 C03 C07 C08 C13 C15
+//@   props C16 C14 C01 C03 C07 C08 C13 C15 C09 C10 C12 C20
 //@   modifies c.logger
 //@   ensures c.logger == logger
 //@ func withRateCount$1
@@ -472,7 +472,7 @@ package command
 //@   modifies c.scanMethod
 //@   ensures c.scanMethod == sm
 //@ func newEngineConfig
-//@   props C16 C01 C03 C07 C08 C13 C14 C15
+//@   props C16 C01 C03 C07 C08 C13 C14 C15 C09 C10 C12 C20
 //@   inline
 //@   observe o
 //@   entry row init:  [] when c.exitDelay == 300000000 -> loop 0
@@ -483,7 +483,7 @@ package command
 // then - outermost - the live re-scanner with the configured interval iff --live > 0 (C19, C02); the logger
 // de-duplicates iff live mode is on (C14)
 //@ func (*arpCmdOpts).newARPScanMethod
-//@   props C19 C02 C01 C03 C05 C11 C13 C14 C15 C16 C17
+//@   props C19 C02 C01 C03 C05 C11 C13 C14 C15 C16 C17 C07 C12
 //@   opaque scan.NewIPGenerator, scan.NewIPRequestGenerator, scan.NewFilterIPRequestGenerator, scan.NewLiveRequestGenerator, arp.NewPacketFiller, scan.NewPacketMultiGenerator, scan.NewPacketSource, scan.NewResultChan, arp.NewScanMethod
 //@   entry row plain:    [call scan.NewIPGenerator() as (ig) ; call scan.NewIPRequestGenerator(ig) as (g) ; call arp.NewPacketFiller() as (pf) ; call scan.NewPacketMultiGenerator(_, _) as (pg) ; call scan.NewPacketSource(g, _) as (ps) ;
 //@                        call scan.NewResultChan(ctx, _) as (rc) ; call arp.NewScanMethod(ps, rc) as (m)] when o.excludeIPs == nil && o.liveTimeout <= 0 && ret == m -> exit
@@ -506,7 +506,7 @@ package command
 // target generator choice (C01): no address file -> subnet x ports; address file without port ranges -> file of
 // ip/port pairs; otherwise file of addresses x ports; the exclusion filter is outermost iff exclusions were given
 //@ func (*ipPortScanCmdOpts).newIPPortGenerator
-//@   props C01 C02 C13 C03 C18 C17
+//@   props C01 C02 C13 C03 C18 C17 C08
 //@   opaque scan.NewIPGenerator, scan.NewPortGenerator, scan.NewIPPortGenerator, scan.NewFileIPPortGenerator, scan.NewFileIPGenerator, scan.NewFilterIPRequestGenerator
 //@   entry row subnet:  [call scan.NewIPGenerator() as (ig) ; call scan.NewPortGenerator() as (pg) ; call scan.NewIPPortGenerator(ig, pg) as (g)] when len(o.ipFile) == 0 && o.excludeIPs == nil && ret == g -> exit
 //@   entry row subnetx: [call scan.NewIPGenerator() as (ig) ; call scan.NewPortGenerator() as (pg) ; call scan.NewIPPortGenerator(ig, pg) as (g) ; call scan.NewFilterIPRequestGenerator(g, o.excludeIPs) as (f)] when len(o.ipFile) == 0 && o.excludeIPs != nil && ret == f -> exit
@@ -518,7 +518,7 @@ package command
 // newSocksCmd$1: options, range and logger first; the engine built by newSOCKSScanEngine; startScanEngine gets that engine and a
 // configuration carrying this logger, this range and the --exit-delay flag
 //@ func newSocksCmd$1
-//@   props C16 C08 C09 C01 C15 C02 C13 C14
+//@   props C16 C08 C09 C01 C15 C02 C13 C14 C12
 //@   observe startScanEngine
 //@   opaque (*genericScanCmdOpts).parseRawOptions, (*genericScanCmdOpts).parseScanRange, (*genericScanCmdOpts).getLogger, (*socksCmdOpts).newSOCKSScanEngine
 //@   entry row badraw: [call parseRawOptions(_) as (e)] when e != nil && ret == e -> exit
@@ -531,7 +531,7 @@ package command
 // newDockerCmd$1: options, range and logger first; the engine built by newDockerScanEngine; startScanEngine gets that engine and a
 // configuration carrying this logger, this range and the --exit-delay flag
 //@ func newDockerCmd$1
-//@   props C16 C08 C10 C01 C15 C02 C13 C14
+//@   props C16 C08 C10 C01 C15 C02 C13 C14 C12
 //@   observe startScanEngine
 //@   opaque (*dockerCmdOpts).parseRawOptions, (*genericScanCmdOpts).parseScanRange, (*genericScanCmdOpts).getLogger, (*dockerCmdOpts).newDockerScanEngine
 //@   entry row badraw: [call parseRawOptions(_) as (e)] when e != nil && ret == e -> exit
@@ -544,7 +544,7 @@ package command
 // newElasticCmd$1: options, range and logger first; the engine built by newElasticScanEngine; startScanEngine gets that engine and a
 // configuration carrying this logger, this range and the --exit-delay flag
 //@ func newElasticCmd$1
-//@   props C16 C08 C10 C01 C15 C02 C13 C14
+//@   props C16 C08 C10 C01 C15 C02 C13 C14 C12
 //@   observe startScanEngine
 //@   opaque (*elasticCmdOpts).parseRawOptions, (*genericScanCmdOpts).parseScanRange, (*genericScanCmdOpts).getLogger, (*elasticCmdOpts).newElasticScanEngine
 //@   entry row badraw: [call parseRawOptions(_) as (e)] when e != nil && ret == e -> exit
@@ -558,7 +558,7 @@ package command
 // exists, filler built from the command's options, method in the command's VPN mode; the filler options carry exactly
 // the parsed flag values, the payload option only for a non-empty payload (C05 C11 C17 C01)
 //@ func (*icmpCmdOpts).getICMPOptions
-//@   props C05
+//@   props C05 C18
 //@   opaque icmp.WithTTL, icmp.WithIPProtocol, icmp.WithIPFlags, icmp.WithIPTotalLength, icmp.WithType, icmp.WithCode, icmp.WithVPNmode, icmp.WithPayload
 //@   entry row nopayload: [call icmp.WithTTL(o.ipTTL) as (a) ; call icmp.WithIPProtocol(o.ipProtocol) as (b) ; call icmp.WithIPFlags(o.ipFlags) as (c) ; call icmp.WithIPTotalLength(o.ipTotalLen) as (d) ;
 //@                         call icmp.WithType(o.icmpType) as (t) ; call icmp.WithCode(o.icmpCode) as (k) ; call icmp.WithVPNmode(o.vpnMode) as (v)]
@@ -567,7 +567,7 @@ package command
 //@                         call icmp.WithType(o.icmpType) as (t) ; call icmp.WithCode(o.icmpCode) as (k) ; call icmp.WithVPNmode(o.vpnMode) as (v) ; call icmp.WithPayload(o.icmpPayload) as (p)]
 //@                          when len(o.icmpPayload) > 0 && len(ret) == 8 && ret[0] == a && ret[1] == b && ret[2] == c && ret[3] == d && ret[4] == t && ret[5] == k && ret[6] == v && ret[7] == p -> exit
 //@ func (*udpCmdOpts).getUDPOptions
-//@   props C05
+//@   props C05 C18
 //@   opaque udp.WithTTL, udp.WithIPProtocol, udp.WithIPFlags, udp.WithIPTotalLength, udp.WithVPNmode, udp.WithPayload
 //@   entry row nopayload: [call udp.WithTTL(o.ipTTL) as (a) ; call udp.WithIPProtocol(o.ipProtocol) as (b) ; call udp.WithIPFlags(o.ipFlags) as (c) ; call udp.WithIPTotalLength(o.ipTotalLen) as (d) ; call udp.WithVPNmode(o.vpnMode) as (v)]
 //@                          when len(o.udpPayload) == 0 && len(ret) == 5 && ret[0] == a && ret[1] == b && ret[2] == c && ret[3] == d && ret[4] == v -> exit
@@ -575,7 +575,7 @@ package command
 //@                         call udp.WithPayload(o.udpPayload) as (p)]
 //@                          when len(o.udpPayload) > 0 && len(ret) == 6 && ret[0] == a && ret[1] == b && ret[2] == c && ret[3] == d && ret[4] == v && ret[5] == p -> exit
 //@ func (*udpCmdOpts).newUDPScanMethod
-//@   props C05 C11 C17 C01 C03 C02 C13 C14 C15 C16
+//@   props C05 C11 C17 C01 C03 C02 C13 C14 C15 C16 C07 C12
 //@   observe getUDPOptions
 //@   opaque (*ipPortScanCmdOpts).newIPPortGenerator, arp.NewCacheRequestGenerator, udp.NewPacketFiller, scan.NewPacketMultiGenerator, scan.NewPacketSource, scan.NewResultChan, udp.NewScanMethod
 //@   entry row direct: [call newIPPortGenerator(_) as (g) ; call getUDPOptions(o) as (os) ; call udp.NewPacketFiller(os) as (pf) ; call scan.NewPacketMultiGenerator(bind_pf2, _) as (pg) ; call scan.NewPacketSource(g, bind_pg2) as (ps) ;
@@ -586,7 +586,7 @@ package command
 //@                       when pg2 == pg && o.cache != nil && isptr(pf2, udp.PacketFiller) && asptr(pf2, udp.PacketFiller) == pf && ret == m -> exit
 
 //@ func (*icmpCmdOpts).newICMPScanMethod
-//@   props C05 C11 C17 C01 C02 C13 C03 C14 C15 C16
+//@   props C05 C11 C17 C01 C02 C13 C03 C14 C15 C16 C07 C12
 //@   observe getICMPOptions
 //@   opaque scan.NewIPGenerator, scan.NewFileIPGenerator, scan.NewIPRequestGenerator, scan.NewFilterIPRequestGenerator, arp.NewCacheRequestGenerator, icmp.NewPacketFiller, scan.NewPacketMultiGenerator, scan.NewPacketSource, scan.NewResultChan, icmp.NewScanMethod
 //@   entry row r000: [call scan.NewIPGenerator() as (ig) ; call scan.NewIPRequestGenerator(ig) as (g) ; call getICMPOptions(o) as (os) ; call icmp.NewPacketFiller(os) as (pf) ; call scan.NewPacketMultiGenerator(bind_pf2, _) as (pg) ; call scan.NewPacketSource(g, bind_pg2) as (ps) ; call scan.NewResultChan(ctx, _) as (rc) ; call icmp.NewScanMethod(ps, rc, o.vpnMode) as (m)]
@@ -608,7 +608,7 @@ package command
 
 // VPN framing is selected exactly when the chosen range has no source MAC (C17)
 //@ func (*ipScanCmdOpts).parseOptions
-//@   props C17 C01 C02 C03 C05 C11 C13 C14 C15 C16
+//@   props C17 C01 C02 C03 C05 C11 C13 C14 C15 C16 C07 C12
 //@   observe getScanRange
 //@   opaque (*ipScanCmdOpts).parseDstSubnet, (*packetScanCmdOpts).getLogger, (*ipScanCmdOpts).validateARPStdin, (*ipScanCmdOpts).parseARPCache, (*ipScanCmdOpts).getGatewayMAC
 //@   entry row nosubnet: [call parseDstSubnet(_, args) as (n, e)] when e != nil && ret == e -> exit
@@ -641,7 +641,7 @@ package command
 //@   exit forbid nofile:    call parsePortsFile(_) when len(pre(o.portFile)) == 0
 //@   ensures plain: (len(old(o.rawRateLimit)) == 0 && len(old(o.rawExcludeFile)) == 0 && len(old(o.rawPortRanges)) == 0 && len(old(o.portFile)) == 0 && old(o.workers) > 0) ==> ret == nil
 //@ func (*packetScanCmdOpts).parseRawOptions
-//@   props C15 C18 C02 C17 C01 C03 C13
+//@   props C15 C18 C02 C17 C01 C03 C13 C08
 //@   opaque parseExcludeFile
 //@   observe net.InterfaceByName, net.ParseMAC
 //@   exit require rate:    call parseRateLimit(bind_s) as (c, w, e) when len(pre(o.rawRateLimit)) > 0 && ret == nil then s == pre(o.rawRateLimit) && e == nil && o.rateCount == c && o.rateWindow == w
@@ -654,7 +654,7 @@ package command
 //@   exit forbid nosrcmac:  call net.ParseMAC(_) when len(pre(o.rawSrcMAC)) == 0
 //@   ensures plain: (len(old(o.rawRateLimit)) == 0 && len(old(o.rawExcludeFile)) == 0 && len(old(o.rawInterface)) == 0 && len(old(o.rawSrcMAC)) == 0) ==> ret == nil
 //@ func (*ipPortScanCmdOpts).parseRawOptions
-//@   props C18 C01 C02 C03 C13 C17
+//@   props C18 C01 C02 C03 C13 C17 C08
 //@   opaque (*ipScanCmdOpts).parseRawOptions, parsePortRanges, parsePortsFile
 //@   exit require base:  call parseRawOptions(_) as (e) when ret == nil then e == nil
 //@   exit require ports: call parsePortRanges(bind_s) as (pr, e) when len(pre(o.rawPortRanges)) > 0 && ret == nil then s == pre(o.rawPortRanges) && e == nil && len(o.portRanges) >= len(pr) && (forall k int :: 0 <= k && k < len(pr) ==> o.portRanges[k] == pr[k])
@@ -682,20 +682,20 @@ package command
 
 // the file openers: the file named by --file, or standard input for "-" where a list of addresses is read
 //@ func (*genericScanCmdOpts).newIPPortGenerator$2
-//@   props C01 C13 C02 C03 C18 C17
+//@   props C01 C13 C02 C03 C18 C17 C08
 //@   observe os.Open
 //@   entry row open: [call os.Open(o.ipFile) as (f, e)] when ret1 == e && isptr(ret0, os.File) && asptr(ret0, os.File) == f -> exit
 //@ func (*genericScanCmdOpts).newIPPortGenerator$3
-//@   props C01 C13 C02 C03 C18 C17
+//@   props C01 C13 C02 C03 C18 C17 C08
 //@   observe os.Open, openStdin
 //@   entry row stdin: [call openStdin() as (c, e)] when o.ipFile == "-" && ret0 == c && ret1 == e -> exit
 //@   entry row open:  [call os.Open(o.ipFile) as (f, e)] when o.ipFile != "-" && ret1 == e && isptr(ret0, os.File) && asptr(ret0, os.File) == f -> exit
 //@ func (*ipPortScanCmdOpts).newIPPortGenerator$2
-//@   props C01 C13 C02 C03 C18 C17
+//@   props C01 C13 C02 C03 C18 C17 C08
 //@   observe os.Open
 //@   entry row open: [call os.Open(o.ipFile) as (f, e)] when ret1 == e && isptr(ret0, os.File) && asptr(ret0, os.File) == f -> exit
 //@ func (*ipPortScanCmdOpts).newIPPortGenerator$3
-//@   props C01 C13 C02 C03 C18 C17
+//@   props C01 C13 C02 C03 C18 C17 C08
 //@   observe os.Open, openStdin
 //@   entry row stdin: [call openStdin() as (c, e)] when o.ipFile == "-" && ret0 == c && ret1 == e -> exit
 //@   entry row open:  [call os.Open(o.ipFile) as (f, e)] when o.ipFile != "-" && ret1 == e && isptr(ret0, os.File) && asptr(ret0, os.File) == f -> exit
@@ -714,26 +714,26 @@ package command
 
 // target of the application scans: the parsed subnet argument (nil with an address file and no argument) with the parsed port ranges
 //@ func (*genericScanCmdOpts).parseDstSubnet
-//@   props C02 C01 C03 C13 C18 C17
+//@   props C02 C01 C03 C13 C18 C17 C08
 //@   observe ip.ParseIPNet
 //@   entry row none:  [] when len(args) == 0 && len(o.ipFile) == 0 && ret0 == nil && ret1 == errNoDstIP -> exit
 //@   entry row file:  [] when len(args) == 0 && len(o.ipFile) != 0 && ret0 == nil && ret1 == nil -> exit
 //@   entry row parse: [call ip.ParseIPNet(pre(args[0])) as (n, e)] when len(args) != 0 && ret0 == n && ret1 == e -> exit
 //@ func (*ipScanCmdOpts).parseDstSubnet
-//@   props C02 C01 C03 C13 C18 C17
+//@   props C02 C01 C03 C13 C18 C17 C08
 //@   observe ip.ParseIPNet
 //@   entry row none:  [] when len(args) == 0 && len(o.ipFile) == 0 && ret0 == nil && ret1 == errNoDstIP -> exit
 //@   entry row file:  [] when len(args) == 0 && len(o.ipFile) != 0 && ret0 == nil && ret1 == nil -> exit
 //@   entry row parse: [call ip.ParseIPNet(pre(args[0])) as (n, e)] when len(args) != 0 && ret0 == n && ret1 == e -> exit
 //@ func (*genericScanCmdOpts).parseScanRange
-//@   props C02 C01 C03 C13 C18 C17
+//@   props C02 C01 C03 C13 C18 C17 C08
 //@   opaque (*genericScanCmdOpts).parseDstSubnet
 //@   entry row range: [call parseDstSubnet(_, args) as (n, e)] when ret1 == e && ret0 != nil && ret0.DstSubnet == n && ret0.Ports == o.portRanges -> exit
 
 // ports file: like the exclusion file - per line the text before '#', trimmed; blank lines skipped; every other
 // line parsed by parsePortRange and appended in order; the first error aborts with nothing
 //@ func parsePortsFile
-//@   props C18 C01 C02 C03 C13 C17
+//@   props C18 C01 C02 C03 C13 C17 C08
 //@   observe openFile, (*bufio.Scanner).Scan, (*bufio.Scanner).Text, strings.Index, strings.Trim, parsePortRange, Close
 //@   entry row noopen: [call openFile() as (in, e)] when e != nil && ret1 == e -> exit
 //@   entry row open:   [call openFile() as (in, e)] when e == nil -> loop 0
@@ -750,14 +750,14 @@ package command
 // per-command raw options: the embedded parser must have succeeded; IP flags and payloads, when given, are parsed
 // once from the given text and stored
 //@ func (*ipScanCmdOpts).parseRawOptions
-//@   props C11 C18 C01 C02 C03 C13 C17
+//@   props C11 C18 C01 C02 C03 C13 C17 C08
 //@   opaque (*packetScanCmdOpts).parseRawOptions
 //@   observe net.ParseMAC
 //@   exit require base:  call parseRawOptions(_) as (e) when ret == nil then e == nil
 //@   exit require gwmac: call net.ParseMAC(bind_s) as (m, e) when len(pre(o.rawGatewayMAC)) > 0 && ret == nil then s == pre(o.rawGatewayMAC) && e == nil && o.gatewayMAC == m
 //@   exit forbid nogwmac: call net.ParseMAC(_) when len(pre(o.rawGatewayMAC)) == 0
 //@ func (*icmpCmdOpts).parseRawOptions
-//@   props C05 C18 C01 C02 C03 C13 C17
+//@   props C05 C18 C01 C02 C03 C13 C17 C08
 //@   opaque (*ipScanCmdOpts).parseRawOptions, parseIPFlags, parsePacketPayload
 //@   exit require base:    call parseRawOptions(_) as (e) when ret == nil then e == nil
 //@   exit require ipflags: call parseIPFlags(bind_s) as (f, e) when len(pre(o.rawIPFlags)) > 0 && ret == nil then s == pre(o.rawIPFlags) && e == nil && o.ipFlags == f
@@ -765,7 +765,7 @@ package command
 //@   exit forbid noipflags: call parseIPFlags(_) when len(pre(o.rawIPFlags)) == 0
 //@   exit forbid nopayload: call parsePacketPayload(_) when len(pre(o.rawICMPPayload)) == 0
 //@ func (*udpCmdOpts).parseRawOptions
-//@   props C05 C18 C01 C02 C03 C13 C17
+//@   props C05 C18 C01 C02 C03 C13 C17 C08
 //@   opaque (*ipPortScanCmdOpts).parseRawOptions, parseIPFlags, parsePacketPayload
 //@   exit require base:    call parseRawOptions(_) as (e) when ret == nil then e == nil
 //@   exit require ipflags: call parseIPFlags(bind_s) as (f, e) when len(pre(o.rawIPFlags)) > 0 && ret == nil then s == pre(o.rawIPFlags) && e == nil && o.ipFlags == f
@@ -773,17 +773,17 @@ package command
 //@   exit forbid noipflags: call parseIPFlags(_) when len(pre(o.rawIPFlags)) == 0
 //@   exit forbid nopayload: call parsePacketPayload(_) when len(pre(o.rawUDPPayload)) == 0
 //@ func (*tcpFlagsCmdOpts).parseRawOptions
-//@   props C05 C18 C01 C02 C03 C13 C17
+//@   props C05 C18 C01 C02 C03 C13 C17 C08
 //@   opaque (*ipPortScanCmdOpts).parseRawOptions, parseTCPFlags
 //@   exit require base:  call parseRawOptions(_) as (e) when ret == nil then e == nil
 //@   exit require flags: call parseTCPFlags(bind_s) as (f, e) when ret == nil then s == pre(o.rawTCPFlags) && e == nil && o.tcpFlags == f
 //@ func (*dockerCmdOpts).parseRawOptions
-//@   props C10 C18 C01 C02 C03 C13 C17
+//@   props C10 C18 C01 C02 C03 C13 C17 C08
 //@   opaque (*genericScanCmdOpts).parseRawOptions
 //@   exit require base: call parseRawOptions(_) as (e) when ret == nil then e == nil
 //@   ensures proto: ret == nil ==> (o.proto == "http" || o.proto == "https")
 //@ func (*elasticCmdOpts).parseRawOptions
-//@   props C10 C18 C01 C02 C03 C13 C17
+//@   props C10 C18 C01 C02 C03 C13 C17 C08
 //@   opaque (*genericScanCmdOpts).parseRawOptions
 //@   exit require base: call parseRawOptions(_) as (e) when ret == nil then e == nil
 //@   ensures proto: ret == nil ==> (o.proto == "http" || o.proto == "https")
@@ -791,25 +791,25 @@ package command
 // ARP cache source and gateway MAC (C11): an explicit --gwmac wins; otherwise the cache entry of the default
 // gateway of the chosen interface; stdin cannot feed both the cache and the address list
 //@ func (*ipScanCmdOpts).isARPCacheFromStdin
-//@   props C11 C01 C05 C07 C13
+//@   props C11 C01 C05 C07 C13 C12
 //@   ensures ret <==> (len(o.arpCacheFile) == 0 || o.arpCacheFile == "-")
 //@ func (*ipScanCmdOpts).validateARPStdin
-//@   props C11 C01 C05 C07 C13
+//@   props C11 C01 C05 C07 C13 C12
 //@   ensures (ret != nil) <==> ((len(o.arpCacheFile) == 0 || o.arpCacheFile == "-") && o.ipFile == "-")
 //@ func (*ipScanCmdOpts).getGatewayMAC
-//@   props C11 C01 C05 C07 C13
+//@   props C11 C01 C05 C07 C13 C12
 //@   observe ip.GetDefaultGatewayIP, To4, Get
 //@   entry row given:  [] when o.gatewayMAC != nil && ret0 == o.gatewayMAC && ret1 == nil -> exit
 //@   entry row nogw:   [call ip.GetDefaultGatewayIP(iface) as (g, e)] when o.gatewayMAC == nil && e != nil && ret1 == e -> exit
 //@   entry row lookup: [call ip.GetDefaultGatewayIP(iface) as (g, e) ; call To4(g) as (g4) ; call Get(cache, g4) as (m)] when o.gatewayMAC == nil && e == nil && ret0 == m && ret1 == nil -> exit
 //@ func (*ipScanCmdOpts).parseARPCache
-//@   props C11 C01 C05 C07 C13
+//@   props C11 C01 C05 C07 C13 C12
 //@   observe arp.FillCache, Close
 //@   opaque (*ipScanCmdOpts).openARPCache, arp.NewCache
 //@   entry row noopen: [call openARPCache(_) as (r, e)] when e != nil && ret1 == e -> exit
 //@   entry row fill:   [call openARPCache(_) as (r, e) ; call arp.NewCache() as (c) ; call arp.FillCache(c, r) as (fe) ; call Close(r)] when e == nil && ret0 == c && ret1 == fe -> exit
 //@ func (*ipPortScanCmdOpts).parseOptions
-//@   props C01 C03 C02 C05 C11 C13 C14 C15 C16 C17
+//@   props C01 C03 C02 C05 C11 C13 C14 C15 C16 C17 C07 C12
 //@   opaque (*ipScanCmdOpts).parseOptions
 //@   entry row bad: [call parseOptions(_, scanName, args) as (e)] when e != nil && ret == e -> exit
 //@   entry row ok:  [call parseOptions(_, scanName, args) as (e)] when e == nil && ret == nil && o.scanRange.Ports == o.portRanges -> exit
@@ -817,7 +817,7 @@ package command
 // tcp --flags: no flags -> the SYN scan with the same options; otherwise one filler option per named flag, in
 // order, each the table entry of that flag (absent -> nil); scan name "tcpflags"; all-pass reply predicate; all flags printed
 //@ func newTCPFlagsCmd$1
-//@   props C03 C05 C15 C16 C17 C01 C02 C11 C13 C14
+//@   props C03 C05 C15 C16 C17 C01 C02 C11 C13 C14 C07 C12
 //@   observe newTCPScanMethod, startPortScanEngine, startScan
 //@   opaque (*tcpFlagsCmdOpts).parseRawOptions, (*ipPortScanCmdOpts).parseOptions, newTCPSYNCmdOpts
 //@   entry row badraw: [call parseRawOptions(_) as (e)] when e != nil && ret == e -> exit
@@ -858,13 +858,13 @@ package command
 // a list on standard input is read completely, once, at the first open; every open (one per port) gets a fresh
 // reader over those same bytes; a read error is reported by every open (F02)
 //@ func newStdinOpener$1
-//@   props C01 C13 C02 C03 C18 C17
+//@   props C01 C13 C02 C03 C18 C17 C08
 //@   observe (*sync.Once).Do, bytes.NewReader, io.NopCloser
 //@   entry row failed: [call Do(_, bind_f)] when closureof(f, "newStdinOpener$1$1") && err != nil && ret0 == nil && ret1 == err -> exit
 //@   entry row reader: [call Do(_, bind_f) ; call bytes.NewReader(data) as (r) ; call io.NopCloser(bind_r2) as (c)]
 //@                        when closureof(f, "newStdinOpener$1$1") && err == nil && isptr(r2, bytes.Reader) && asptr(r2, bytes.Reader) == r && ret0 == c && ret1 == nil -> exit
 //@ func newStdinOpener$1$1
-//@   props C01 C13 C02 C03 C18 C17
+//@   props C01 C13 C02 C03 C18 C17 C08
 //@   observe io.ReadAll
 //@   entry row read: [call io.ReadAll(bind_in) as (d, e)] when isptr(in, os.File) && asptr(in, os.File) == os.Stdin && data == d && err == e -> exit
 
@@ -1023,11 +1023,11 @@ package command
 // option constructors: each returns its own option closure over exactly its argument (verified here, inlined at call sites)
 //@ func withExitDelay
 //@   inline
-//@   props C16 C01 C03 C07 C08 C13 C14 C15
+//@   props C16 C01 C03 C07 C08 C13 C14 C15 C09 C10 C12 C20
 //@   ensures closureof(ret, "withExitDelay$1") && capt(ret, "exitDelay") == exitDelay
 //@ func withLogger
 //@   inline
-//@   props C16 C14 C01 C03 C07 C08 C13 C15
+//@   props C16 C14 C01 C03 C07 C08 C13 C15 C09 C10 C12 C20
 //@   ensures closureof(ret, "withLogger$1") && capt(ret, "logger") == logger
 //@ func withPacketBPFFilter
 //@   inline
